@@ -216,5 +216,7 @@ def run(ck):
     call_rr = [s for s in ast.walk(rg) if isinstance(s, ast.Expr) and call_name(s.value) == 'repair_residue']
     ok = ok and len(call_rr) == 1 and all(call_rr[0].lineno < s.lineno for s in fd)
     ck.ob('PROV-unrecognised', mod.loc(rg), ok, 'the complement is taken after the residue was repaired (rebuilt atoms are in the match)', key='PROV-unrecognised|after-repair')
+    shared.reference_residue_rules(ck, 'PROV-reference')
     shared.truthy_zero(ck, [RG])
+    shared.runs_every_molecule(ck, 'vermouth/processors/repair_graph.py', 'RepairGraph', 'MPT-every-molecule')
     ck.assume('that the search returns a largest match and that the result is invariant under renaming/permutation depend on the ISMAGS search outcome (C06, not applicable)')
